@@ -1082,6 +1082,8 @@ def run_one(case):
     out['mro'] = [known[id(k)] for k in type(inst).__mro__ if id(k) in known]
     if not hasattr(type(inst), 'type_vars'):
         return {'invalid': 'not a GenericMixin'}
+    if x.get('prime'):
+        prime_queries(clss, c, w)
     try:
         r = inst.type_vars
         out['type_vars'] = ['ok', [[enc_targ(k, w, enum_objs), enc_targ(v, w, enum_objs)] for k, v in r.items()]]
@@ -1530,3 +1532,48 @@ def extra_coverage(results):
                 k = key + ':' + (m[key][0] if m[key][0] == 'ok' else m[key][1] + '/' + m[key][2])
                 sites[k] = sites.get(k, 0) + 1
     return {'reported_only': dict(sorted(reported.items())), 'model_branches': dict(sorted(sites.items()))}
+
+
+# ------------------------------------------------------------------ twins for the amplified run (core.amplified_run, props/_twins.py)
+
+def prime_queries(clss, c, w):
+    """decoy queries before the query of the case: instances of the SAME class with other type arguments (each argument moved to the next
+    vocabulary entry) and without arguments, and instances of every other class of the table (subclasses / bases of it); results ignored"""
+    def ask(make):
+        try:
+            i = make()
+            for attr in ('type_vars', 'type_var'):
+                try:
+                    getattr(i, attr)
+                except BaseException:
+                    pass
+            if hasattr(i, 'get_decorated_functions'):
+                try:
+                    i.get_decorated_functions()
+                except BaseException:
+                    pass
+        except BaseException:
+            pass
+    cls = clss[c['cls']]
+    if c.get('orig') is not None:
+        for shift in (1, 2):
+            args = tuple(targ_obj(['ty', (a[1] + shift) % NVOC]) if a[0] == 'ty' and a[1] < NVOC else targ_obj(a) for a in c['orig'])
+            if args:
+                ask(lambda: (cls[args] if len(args) != 1 else cls[args[0]])())
+    ask(lambda: cls())
+    for other in clss[LIB:]:
+        if other is not cls and isinstance(other, type):
+            ask(lambda: other())
+            n = len(getattr(other, '__parameters__', ()))
+            if n:
+                args = tuple(w.vocab[(k + 3) % NVOC] for k in range(n))
+                ask(lambda: (other[args] if n != 1 else other[args[0]])())
+
+
+def twins(case):
+    """primed twin of a single-query case: the query is preceded by queries on other instances of the same class (other type arguments)
+    and on instances of the other classes of the table; the expected outcome is the one of the case itself"""
+    c = case['c']
+    if c.get('k') == 'history' or case.get('x', {}).get('prime'):
+        return []
+    return [dict(case, x=dict(case.get('x') or {}, prime=['other_instances']))]
